@@ -57,7 +57,7 @@ def _short(v):
     return repr(v)
 
 
-def run_case(ck, case):
+def run_case(ck, case, allow_refused=False):
     fn = ck.runner.function(MODS.get(case.test, case.meta.get('module')), case.meta.get('qual', case.test))
     owned = dict(case.owned)
     for k, v in case.kwargs.items():
@@ -70,8 +70,16 @@ def run_case(ck, case):
     for i, v in enumerate(case.args):
         if isinstance(v, (list, dict)):
             owned[f'arg{i}'] = v
-    out = ck.runner.run(fn, case.args, case.kwargs, time_features=case.features, owned=owned, parse_time=case.parse_time)
-    ck.count(1, distinct=('case', case.test, case.label, out.kind, None if out.kind == 'return' else out.exc.tname))
+    try:
+        out = ck.runner.run(fn, case.args, case.kwargs, time_features=case.features, owned=owned, parse_time=case.parse_time)
+    except AnalysisError as e:
+        if not allow_refused or os.environ.get('VERIF_NO_CONCRETE') or not atoms_in([case.args, case.kwargs], set()):
+            raise
+        out = Outcome('refused')
+        out.reason = str(e)[:200]
+        out.error = e
+    out.case = case
+    ck.count(1, distinct=('case', case.test, case.label, out.kind, getattr(getattr(out, 'exc', None), 'tname', None)))
     return out
 
 
@@ -341,3 +349,26 @@ def concrete_table_rule(ck, rule, case, spec, scope, reason):
     ck.evaluations += runs
     if not bad:
         ck.hold(rule + '.table', case.label + ' [concretised]')
+
+
+def concrete_envs(cases, rng, k):
+    """k random exact assignments of all data atoms occurring in the given cases"""
+    atoms = set()
+    for c in cases:
+        atoms_in([c.args, c.kwargs], atoms)
+    atoms = sorted(atoms, key=repr)
+    scales = [1, 1, 2, 3, 10]
+    for _ in range(k):
+        sc = rng.choice(scales)
+        yield {a: Fr(rng.randint(-6 * sc, 9 * sc), rng.choice((1, 2, 4))) for a in atoms}
+
+
+def concretised(case, env):
+    return Case(case.test, concretise_value(case.args, env), concretise_value(case.kwargs, env), n=case.n, pat=case.pat, meta=case.meta,
+                label=case.label + f' with {{{", ".join(f"{X.show(a)}={float(v):g}" for a, v in sorted(env.items(), key=repr)[:6])}}}',
+                features=case.features, owned=case.owned, parse_time=case.parse_time)
+
+
+def concrete_result_flags(out):
+    """per position (flag set, masked) of a concretely computed outcome"""
+    return [concrete_flags_of(out.value, p) for p in range(len(out.value))]
